@@ -191,6 +191,8 @@ fn random(
     gen_name: &str,
 ) -> Outcome {
     let seed = p.seed;
+    let small = GenCfg { min_ops: g.min_ops.min(3), max_ops: g.max_ops.min(16), ..*g };
+    let g = if p.san() { &small } else { g };
     let run = |i: u64, out: &mut Outcome| {
         let mut rng = Rng::new(mix(seed, mix(hash_of(&gen_name), i)));
         let h = gen_vec_history(&mut rng, g);
@@ -257,7 +259,7 @@ pub fn run_c05(p: &Params) -> Outcome {
         &nt,
         "c05-exh-traversal-txn",
     ));
-    let n = if p.thorough { 200_000 } else { 8_000 };
+    let n = p.n(60_000, 600_000);
     let g = GenCfg {
         caps: &[16, 32, 64],
         min_ops: 20,
@@ -322,7 +324,7 @@ pub fn run_c06(p: &Params) -> Outcome {
     out.ev.exhaustive_scopes.push(format!(
         "{gen_name}: all sequences of exactly {depth} steps over {{push_back, pop_front, txn(push,push), txn(pop_front,push_front), drain(plain), drain(batched), poll-one(plain)}} for capacities {caps:?}, one plain and one batched subscriber (shorter sequences are prefixes: every monitor runs after every step)"
     ));
-    let n = if p.thorough { 300_000 } else { 12_000 };
+    let n = p.n(80_000, 1_000_000);
     let g = GenCfg {
         caps: &[1, 2, 3, 5, 6, 16, 1000],
         min_ops: 20,
@@ -442,7 +444,7 @@ pub fn run_c07(p: &Params) -> Outcome {
         "{gen_name}: every transaction body of length <= {depth} over 11-16 body operations (all eleven mutators, entry ops, for_each, an out-of-range insert) from 4 initial vectors x capacities [1,2,16] x subscriber sets [none, one plain, batched+plain+batched] x 6 endings (commit, drop, rollback+drop, rollback+commit, rollback+more+commit, rollback+more+drop) x 2 surroundings; {} roots",
         roots.len()
     ));
-    let n = if p.thorough { 200_000 } else { 8_000 };
+    let n = p.n(60_000, 600_000);
     let g = GenCfg {
         caps: &[1, 2, 3, 16],
         min_ops: 10,
@@ -537,7 +539,7 @@ pub fn run_c08(p: &Params) -> Outcome {
     out.ev.exhaustive_scopes.push(format!(
         "{gen_name}: 6 subscriber situations (pending, never polled, behind within capacity, lagged, mid-batch, lagged onto a transaction) x capacities {caps:?} x both stream flavours x every operation sequence of length <= {depth} over 6-7 operations, then drop of the vector and drain"
     ));
-    let n = if p.thorough { 200_000 } else { 8_000 };
+    let n = p.n(60_000, 600_000);
     let g = GenCfg {
         caps: &[1, 2, 4, 16],
         min_ops: 3,
@@ -602,7 +604,7 @@ pub fn run_c17(p: &Params) -> Outcome {
     };
     let inits: Vec<Vec<u32>> = (0..=maxlen).map(|k| (0..k as u32).collect()).collect();
     out.merge(exhaustive("C17", p, &inits, &[64], &[0, 1], &[false], 1, &trav, &nt, "c17-exh-traversal"));
-    let n = if p.thorough { 100_000 } else { 5_000 };
+    let n = p.n(30_000, 400_000);
     let g = GenCfg {
         caps: &[8, 16],
         min_ops: 20,
